@@ -1,7 +1,7 @@
 (* C01: the k-mer iterator yields exactly the valid windows, in order, 2-bit encoded.
    This file only pins statements; proofs live in Proof/. *)
 From Coq Require Import NArith List.
-From KT Require Import Gen.Generated Gen.Alphabet Gen.FactsBase Gen.FactTableKmer Model.Kmer Proof.KmerProof.
+From KT Require Import Gen.Generated Gen.Alphabet Gen.FactsBase Gen.FactTableKmer Model.Kmer Proof.KmerProof Proof.Pull.
 Import ListNotations.
 Open Scope N_scope.
 
@@ -31,6 +31,20 @@ Theorem C01_spec_enumerates_the_windows :
   forall nt4 k s, spec_kmers nt4 k s = flat_map (fun p => emit nt4 (window s p k)) (seq 0 (length s + 1 - k)).
 Proof. exact spec_kmers_windows. Qed.
 
+(* the Iterator interface (Proof/Pull.v: a pull-based iterator object - registers, position, bytes not yet consumed -
+   whose next() consumes bytes until an item can be returned or the sequence ends): the items obtained by calling
+   next() until it returns None are exactly the specified ones, in order, and an exhausted iterator keeps
+   returning None without changing *)
+Theorem C01_items_drawn_with_next :
+  forall k s, (1 <= k <= 31)%nat ->
+  kg_collect nt4 k (length s + 2) (mkst 0 0 0, 0%nat, s) = spec_kmers nt4 k s.
+Proof. intros k s Hk. rewrite kg_collect_run. exact (kg_run_spec nt4 k Hk s). Qed.
+
+Theorem C01_exhausted_iterator_stays_exhausted :
+  forall k st pos rest o', kg_next nt4 k st pos rest = (None, o') ->
+  let '(st', pos', rest') := o' in kg_next nt4 k st' pos' rest' = (None, o').
+Proof. intros k. apply next_fused. reflexivity. Qed.
+
 (* non-vacuity: a concrete input with an ambiguous byte in the middle *)
 Example C01_example : kg_run nt4 2 [65; 67; 78; 71; 84; 84] = [(1, 11); (11, 1); (15, 0)].
 Proof. vm_compute. reflexivity. Qed.
@@ -39,3 +53,5 @@ Print Assumptions C01_iterator_exact.
 Print Assumptions C01_alphabet.
 Print Assumptions C01_iterator_exact_letters.
 Print Assumptions C01_spec_enumerates_the_windows.
+Print Assumptions C01_items_drawn_with_next.
+Print Assumptions C01_exhausted_iterator_stays_exhausted.
